@@ -1,3 +1,4 @@
+mod c07;
 mod c10;
 mod c14;
 mod c15;
@@ -8,6 +9,8 @@ mod gchecks;
 mod gprog;
 mod reflex;
 mod refpos;
+mod sweep;
+mod swchecks;
 mod synchecks;
 mod texts;
 mod ws;
@@ -17,10 +20,14 @@ use crate::core::{Check, Tier};
 static C01: synchecks::SynCheck = synchecks::SynCheck { mode: synchecks::Mode::Lossless };
 static C02: synchecks::SynCheck = synchecks::SynCheck { mode: synchecks::Mode::Totality };
 
+static C03: swchecks::SwCheck = swchecks::SwCheck { mode: swchecks::SMode::Totality };
+static C06: swchecks::SwCheck = swchecks::SwCheck { mode: swchecks::SMode::Coherence };
+static C17: swchecks::SwCheck = swchecks::SwCheck { mode: swchecks::SMode::Ranges };
 static C05: gchecks::GCheck = gchecks::GCheck { mode: gchecks::GMode::Resolution };
 static C13: gchecks::GCheck = gchecks::GCheck { mode: gchecks::GMode::Diagnostics };
 static C18: gchecks::GCheck = gchecks::GCheck { mode: gchecks::GMode::Outline };
 static C19: gchecks::GCheck = gchecks::GCheck { mode: gchecks::GMode::Hover };
+static C07: c07::C07 = c07::C07;
 static C10: c10::C10 = c10::C10;
 static C14: c14::C14 = c14::C14;
 static C15: c15::C15 = c15::C15;
@@ -28,7 +35,7 @@ static C16: c16::C16 = c16::C16;
 static C20: c20::C20 = c20::C20;
 
 fn registry() -> Vec<&'static dyn Check> {
-    vec![&C01, &C02, &C05, &C10, &C13, &C18, &C19, &C14, &C15, &C16, &C20]
+    vec![&C01, &C02, &C03, &C05, &C06, &C07, &C17, &C10, &C13, &C18, &C19, &C14, &C15, &C16, &C20]
 }
 
 fn usage() -> ! {
